@@ -48,6 +48,7 @@ def run(ctx, rep):
     d3(ctx, rep)
     d4(ctx, rep)
     d5(ctx, rep)
+    d5_pure(ctx, rep)
     d6(ctx, rep)
 
 
@@ -71,6 +72,17 @@ def d1(ctx, rep):
               'U, V = split_matrix(X) on every path', 'the two columns are not taken from X by split_matrix on every path', construct='split_matrix')
     if not ok:
         return
+    # the columns that are range-checked must be the caller's values themselves (views of X), not a sanitised copy
+    from .c20 import get_alias
+    sm = get_alias(ctx).summaries.get('copulas.bivariate.utils.split_matrix')
+    spl = prog.func('copulas.bivariate.utils.split_matrix')
+    raw = sm is not None and ('P', spl.params[0]) in sm.ret
+    transformed = [c for c in walk_no_nested(spl.node) if isinstance(c, ast.Call) and call_name(c) in (
+        'clip', 'abs', 'round', 'nan_to_num', 'minimum', 'maximum', 'mod', 'where')]
+    rep.check('D1.path', spl, transformed[0] if transformed else spl.node.name, raw and not transformed,
+              'split_matrix returns views of X (the values that are checked are the values that were given)',
+              'split_matrix hands back transformed values: the range check that follows can no longer see out-of-range input',
+              construct='raw columns')
     u, v = (e.id for e in st.targets[0].elts)
     chain = [cfg.node_containing(split[0])]
     cms = [c for c in walk_no_nested(fn.node) if isinstance(c, ast.Call) and is_self_attr(c.func, fn.self_name, 'check_marginal')]
@@ -314,6 +326,49 @@ def _is_copy_of(fn, v, attr):
         defs = [a for a in assignments(fn.node, v.id) if isinstance(a, ast.Assign)]
         return bool(defs) and all(isinstance(a.value, ast.Attribute) and a.value.attr == attr for a in defs)
     return False
+
+
+def d5_pure(ctx, rep):
+    prog = ctx.prog
+    rep.rule('D5.pure', 'compute_theta is a function of self.tau only: it keeps no state between calibrations (no store outside locals, no mutable class-level cache)')
+    n = 0
+    for c in prog.cls(BIV).subclasses():
+        ct = c.methods.get('compute_theta')
+        if ct is None:
+            continue
+        n += 1
+        closure = [ct]
+        for call in walk_no_nested(ct.node):
+            if isinstance(call, ast.Call):
+                for a in [call.func] + list(call.args):
+                    if is_self_attr(a, ct.self_name) and c.lookup(a.attr) is not None and c.lookup(a.attr) not in closure:
+                        closure.append(c.lookup(a.attr))
+        bad = False
+        for f in closure:
+            for x in walk_no_nested(f.node):
+                tgt = None
+                if isinstance(x, (ast.Assign, ast.AugAssign, ast.AnnAssign)):
+                    tgts = x.targets if isinstance(x, ast.Assign) else [x.target]
+                    for t in tgts:
+                        for e in (t.elts if isinstance(t, (ast.Tuple, ast.List)) else [t]):
+                            if not isinstance(e, ast.Name):
+                                tgt = e
+                if tgt is not None:
+                    bad = True
+                    rep.bad('D5.pure', f, x, f'the calibration stores into {short(tgt, 40)}: theta of one fit can depend on an earlier '
+                            'calibration (cache / shared state) instead of this fit\'s tau only')
+                if isinstance(x, ast.Call) and isinstance(x.func, ast.Attribute) and x.func.attr in ('setdefault', 'update', 'append', 'add') \
+                        and not isinstance(x.func.value, ast.Name):
+                    bad = True
+                    rep.bad('D5.pure', f, x, 'the calibration updates a shared container')
+                if isinstance(x, ast.Attribute) and isinstance(x.ctx, ast.Load) and isinstance(x.value, ast.Name) \
+                        and x.value.id in (c.name, 'cls', f.self_name) and isinstance(c.lookup_attr(x.attr) and c.lookup_attr(x.attr)[1], (ast.Dict, ast.List, ast.Set)) \
+                        and x.attr not in ('theta_interval', 'invalid_thetas'):
+                    bad = True
+                    rep.bad('D5.pure', f, x, f'the calibration reads the mutable class-level container {x.attr}')
+        if not bad:
+            rep.ok('D5.pure', ct, ct.node.name, f'{len(closure)} function(s): no store outside locals, no shared container', construct='def compute_theta')
+    rep.floor('D5.pure', 'compute_theta implementations', n, 3)
 
 
 def d6(ctx, rep):
